@@ -106,7 +106,38 @@ def run(tier, corrupt=False):
                 elif d_["pos"] != len(s_["bytes"]) or d_["remaining"] != 0 or d_["obj"].get("_size") != len(s_["bytes"]) or d_.get("nested_size_mismatch"):
                     v.violation(key, f"consumed {d_['pos']} of {len(s_['bytes'])} bytes, byte_size {d_['obj'].get('_size')}, nested mismatches {d_.get('nested_size_mismatch')}", case)
             n += nv
+        # ---- names: the grammar puts no restriction on field names; the MODEL round-trips these programs like any other (a name is a
+        # name), the generated code must too even where the name is one it uses for itself (loop variable, reader, ...)
+        from ..corpus import hostile_name_programs
+        hn = hostile_name_programs()
+        hprogs = [progs[0]] + [p for p, _, _ in hn]
+        hmodel = tlc_given(tmp, hprogs, types, [{"p": k + 2, "obj": o, "san0": False} for k, (_, o, _) in enumerate(hn)], "givenrt", withsize=False, tag="names")
+        require(all(m["kind"] == "de" and m["rt_ok"] for m in hmodel), "the model does not round-trip a hostile-name program")
+        with scratch("c01n-") as wt2:
+            src2, acc2, rej2 = prepare_world(wt2, hprogs, types)
+            for p, e in rej2:
+                v.violation(f"generator rejects valid program {p['name']}", f"{type(e).__name__}: {e}", {"prog": p})
+            accn = {p["name"] for p in acc2}
+            hsel = [(p, o, nm) for p, o, nm in hn if p["name"] in accn]
+            imp3, hres = run_drivers_parallel(src2, wt2, acc2, types, [{"kind": "rt", "prog": p["name"], "obj": o, "salt": 0} for p, o, _ in hsel])
+            if imp3:
+                v.violation("names: generated package not importable", imp3.strip().splitlines()[-1], {"trace": imp3})
+                hres = []
+            for (p, o, nm), res_ in zip(hsel, hres):
+                n += 1
+                if "harness_error" in res_:
+                    raise MachineryError(res_["harness_error"])
+                s_, d_ = res_["ser"], res_["de"]
+                key = f"names: {p['name']} (field named {nm})"
+                case = {"prog": p, "obj": o, "observed": res_}
+                if s_["ctor_exc"] or s_["exc"] or d_ is None or d_["exc"]:
+                    v.violation(key, f"object does not survive: constructor {s_['ctor_exc']!r} serialize {s_['exc']!r} deserialize {(d_ or {}).get('exc')!r} {(d_ or {}).get('exc_msg', '')!r}", case)
+                elif strip_sizes(d_["obj"]) != o:
+                    v.violation(key, f"round trip changed the object: {short(strip_sizes(d_['obj']))} (was {short(o)})", case)
+                elif d_["pos"] != len(s_["bytes"]) or d_["remaining"] != 0 or d_["obj"].get("_size") != len(s_["bytes"]) or d_.get("nested_size_mismatch"):
+                    v.violation(key, f"consumed {d_['pos']} of {len(s_['bytes'])} bytes, byte_size {d_['obj'].get('_size')}", case)
     cov = dict(stats)
+    cov["hostile_field_name_programs"] = len(hn)
     cov["random_objects_round_tripped"] = nv
     cov["random_objects_outside_the_quantifier_by_the_model"] = len(vcases) - len(sel)
     cov.update({"traces_validated_against_impl": n, "programs": len(rt_progs), "programs_excluded_as_ambiguous": [p["name"] for p in progs if not p.get("rt")] , "generated_programs_classified_ambiguous_by_the_model": len(ambiguous),
